@@ -20,6 +20,7 @@ CONSTANTS
   Bug_ImmDropEarly = FALSE
   Bug_FlushDeepDuringCompaction = FALSE
   Bug_ExpandKeepsParents = FALSE
+  Bug_ExpandNoBoundary = FALSE
 INVARIANTS SeqSane
 PROPERTIES ImplementsKV
 CONSTRAINT MCBound
